@@ -689,12 +689,34 @@ func c13Restore(c *Check) {
 			}
 		}
 	}
+	// the EnterJoint step is queued only when there are outgoing voters
 	okBranch := false
-	for _, b := range restore.Blocks {
-		if iff, ok := b.Instrs[len(b.Instrs)-1].(*ssa.If); ok && rfi.Reach[b.Index] {
-			s := rfi.Sym(iff.Cond)
-			if s.K == KBin && s.Name == "==" && strings.Contains(s.Key(), "len(") && strings.Contains(s.Key(), "toConfChangeSingle") {
+	var outgoing ssa.Value
+	for _, in := range p.liveInstrsOf(restore) {
+		if ex, ok := in.(*ssa.Extract); ok && ex.Index == 0 {
+			if call, ok := ex.Tuple.(*ssa.Call); ok && call.Common().StaticCallee() == toSingle {
+				outgoing = ex
+			}
+		}
+	}
+	if outgoing != nil {
+		lenSym := &Sym{K: KBuiltin, Name: "len", Args: []*Sym{rfi.Sym(outgoing)}}
+		for _, in := range p.liveInstrsOf(restore) {
+			mk, ok := in.(*ssa.MakeClosure)
+			if !ok {
+				continue
+			}
+			an, _ := mk.Fn.(*ssa.Function)
+			if an == nil || len(p.CallsIn(an, enterJoint)) == 0 {
+				continue
+			}
+			f := rfi.FactsAt(mk)
+			tested := &Facts{FI: rfi, Atoms: f.Tested}
+			if tested.ImpliesCmp(lenSym, "!=", constSym(0)) || tested.ImpliesCmp(lenSym, ">", constSym(0)) {
 				okBranch = true
+			} else {
+				okBranch = false
+				break
 			}
 		}
 	}
